@@ -57,6 +57,62 @@ def tophatOpenModel (dt : DT) (f : Img Int) (sup : List (List Int × Int)) : Img
 def tophatCloseModel (dt : DT) (f : Img Int) (sup : List (List Int × Int)) : Img Int :=
   submModel dt (closeModel dt f sup) f
 
+/-! ### `open` / `close` as buffer programs (`morph.py:393-472` with `out=`)
+
+`open(f, Bc, out)` runs `eroded = erode(f, Bc, out=out)` — the kernel stores `*rpos = value` into **every** cell
+of the caller's buffer in scan order, whatever it held —, then `tmp = eroded.copy()`, then
+`dilate(tmp, Bc, out=eroded)`: `std::fill(out, min)` followed by the scatter loop, which reads `tmp` and
+raises cells of `eroded`. `close` is symmetric. A buffer is an `Array Int` of the size of the image
+(`_get_output` checks dtype, shape and C-contiguity). -/
+
+/-- `_morph.erode(A, Bc, out)`: every cell of `out` is overwritten, in scan order -/
+def erodeInto (dt : DT) (A : Img Int) (sup : List (List Int × Int)) (out : Array Int) : Array Int :=
+  (List.range A.size).foldl (fun o i => o.setIfInBounds i (erodeAt dt A sup (unravelI A.shape i))) out
+
+/-- `std::fill(rpos, rpos + res.size(), v)` -/
+def fillBuf (out : Array Int) (v : Int) : Array Int :=
+  (List.range out.size).foldl (fun o i => o.setIfInBounds i v) out
+
+/-- `_morph.dilate(A, Bc, out)` with `A` and `out` distinct buffers: fill, then scatter reading `A` -/
+def dilateInto (dt : DT) (A : Img Int) (sup : List (List Int × Int)) (out : Array Int) : Array Int :=
+  (allPos A.shape).foldl (fun o p =>
+      let v := A.getD p dt.lo
+      if v = dt.lo then o else sup.foldl (dilateScatter dt A.shape v p) o)
+    (fillBuf out dt.lo)
+
+/-- `open(f, Bc, out=out)` as the source runs it: erode into `out`, copy, dilate the copy into `out` -/
+def openBuf (dt : DT) (A : Img Int) (sup : List (List Int × Int)) (out : Array Int) : Array Int :=
+  let eroded := erodeInto dt A sup out
+  let tmp : Img Int := { shape := A.shape, data := eroded }    -- `eroded.copy()`
+  dilateInto dt tmp sup eroded
+
+/-- `close(f, Bc, out=out)`: dilate into `out`, copy, erode the copy into `out` -/
+def closeBuf (dt : DT) (A : Img Int) (sup : List (List Int × Int)) (out : Array Int) : Array Int :=
+  let dilated := dilateInto dt A sup out
+  let tmp : Img Int := { shape := A.shape, data := dilated }   -- `dilated.copy()`
+  erodeInto dt tmp sup dilated
+
+/-- `dilate(buf, Bc, out=buf)` — what `open` would run **without** the copy: input and output are the same
+    memory, so the fill destroys the input and the loop reads the cells it is writing -/
+def dilateInPlace (dt : DT) (shape : List Nat) (sup : List (List Int × Int)) (buf : Array Int) : Array Int :=
+  (allPos shape).foldl (fun st p =>
+      let v := st.getD (ravelI shape p) dt.lo
+      if v = dt.lo then st else sup.foldl (dilateScatter dt shape v p) st)
+    (fillBuf buf dt.lo)
+
+/-- `erode(buf, Bc, out=buf)` — `close` without the copy: each stored minimum is read back by later pixels -/
+def erodeInPlace (dt : DT) (shape : List Nat) (sup : List (List Int × Int)) (buf : Array Int) : Array Int :=
+  (List.range (shapeSize shape)).foldl (fun st i =>
+      st.setIfInBounds i (erodeAt dt { shape := shape, data := st } sup (unravelI shape i))) buf
+
+/-- `open` without the copy (the aliasing the comment in the source warns about) -/
+def openAliased (dt : DT) (A : Img Int) (sup : List (List Int × Int)) (out : Array Int) : Array Int :=
+  dilateInPlace dt A.shape sup (erodeInto dt A sup out)
+
+/-- `close` without the copy -/
+def closeAliased (dt : DT) (A : Img Int) (sup : List (List Int × Int)) (out : Array Int) : Array Int :=
+  erodeInPlace dt A.shape sup (dilateInto dt A sup out)
+
 /-- largest height of a member of the element (0 for an empty one) -/
 def maxHeight (dt : DT) (sup : List (List Int × Int)) : Int :=
   (sup.filter (isMember dt)).foldl (fun m kh => max m kh.2) 0
@@ -86,7 +142,10 @@ def handle (a : Args) : String :=
     let sup := support bshape bc dt.isBool
     let n := a.nat "n"
     let sh (x : Img Int) := showInts x.data.toList
-    s!"erode={sh (erodeImg dt f sup)} dilate={sh (dilateImg dt f sup)} open={sh (openModel dt f sup)} close={sh (closeModel dt f sup)} cerode={sh (cerodeModel dt f g sup)} cdilate={sh (cdilateModel dt f g sup n)} thopen={sh (tophatOpenModel dt f sup)} thclose={sh (tophatCloseModel dt f sup)} clearf={if clearOf dt sup f then 1 else 0} clearg={if clearOf dt sup g then 1 else 0} symstar={if C14.symStarB (sup.filter (isMember dt)) then 1 else 0}"
+    s!"erode={sh (erodeImg dt f sup)} dilate={sh (dilateImg dt f sup)} open={sh (openModel dt f sup)} close={sh (closeModel dt f sup)} cerode={sh (cerodeModel dt f g sup)} cdilate={sh (cdilateModel dt f g sup n)} thopen={sh (tophatOpenModel dt f sup)} thclose={sh (tophatCloseModel dt f sup)} clearf={if clearOf dt sup f then 1 else 0} clearg={if clearOf dt sup g then 1 else 0} symstar={if C14.symStarB (sup.filter (isMember dt)) then 1 else 0}" ++
+      (if a.has "buf1" then
+        s!" openbuf={showInts (openBuf dt f sup (a.ints "buf1").toArray).toList} closebuf={showInts (closeBuf dt f sup (a.ints "buf2").toArray).toList} openalias={showInts (openAliased dt f sup (a.ints "buf1").toArray).toList} closealias={showInts (closeAliased dt f sup (a.ints "buf2").toArray).toList}"
+       else "")
   | k => s!"error=unknown-kind-{k}"
 
 end Mahotas.C02
